@@ -1,5 +1,6 @@
 import QipVerif.Lemmas.QasmCustomDen
 import QipVerif.Lemmas.QasmFlatWf
+import QipVerif.Lemmas.QasmRenderInj
 /-!
 # Whole programs WITH user gate definitions (class W₁) — refinement (C04)
 
@@ -13,9 +14,10 @@ qubits whose unitary is that of the temporary circuit `_custom_gate` builds (`IO
 
 The importer caches the unitary of a user gate under the TEXT `name(arg tokens)`.  In the model the key
 is `customName name ps` (rendered expressions); `KeyInj` — different calls of the program have different
-keys — is the explicit hypothesis under which a cache hit returns the expansion of the gate that is
-being called.  (In the code the key IS the call's text, so the hypothesis only concerns the rendering of
-expression trees.)
+keys — is what makes a cache hit return the expansion of the gate that is being called.  It holds for
+every program whose user-gate names are identifiers and whose parameter expressions are well formed
+(`ExprWf`: literals are numeric tokens, identifiers are identifiers): rendering is injective on such
+expressions (`Lemmas/QasmRenderInj*.lean`: strict parser ∘ strict lexer ∘ render = id).
 -/
 namespace QipVerif.Qasm.Import
 open QipVerif.Qasm
@@ -783,8 +785,11 @@ structure W1 (p : Program) (decls : List Stmt) (gdefs : List GateDef) (ops : Lis
   /-- original code: a body without any gate statement is refused (`Gen.emptyBodyOk = false`) -/
   bodies : Gen.emptyBodyOk = true ∨ ∀ d ∈ gdefs, d.body.filter noBarrier ≠ []
   noZeroDiv : ∀ s ∈ ops, ∀ e ∈ paramsOf s, divZero e = false
-  /-- different user-gate calls have different cache keys (rendered `name(args)`) -/
-  keys : KeyInj (fun n ps => ∃ s ∈ ops, callOf s = some (n, ps) ∧ predefined n = false)
+  /-- calls of user gates: the name is an identifier, the parameter expressions are well formed (literals
+  are numeric tokens of the standard, identifiers are identifiers, functions are the standard's) — then
+  different calls have different cache keys `name(args)` -/
+  wf : ∀ s ∈ ops, ∀ n ps, callOf s = some (n, ps) → predefined n = false →
+    isIdent n = true ∧ ∀ e ∈ ps, ExprWf e = true
 
 theorem knownInv_initial (U : List GateDef) (C : Str → List Expr → Prop) : KnownInv U C initialKnown :=
   fun _ he => Or.inl he
@@ -795,7 +800,12 @@ theorem import_refines_w1 (p : Program) (decls : List Stmt) (gdefs : List GateDe
     (hk : ∀ s ∈ ops, ifRangeOk env s) :
     importProgram p = .ok (env.qregs.total, env.cregs.total,
       fl.flatMap (gatesOf1 (gdefs.reverse.map storeDef))) ∧ env.gates = gdefs.reverse ++ qelib1.reverse := by
-  obtain ⟨rfl, hd, ho, hdefs, hfew, hbodies, hz, hkeys⟩ := hw
+  obtain ⟨rfl, hd, ho, hdefs, hfew, hbodies, hz, hwf⟩ := hw
+  have hkeys : KeyInj (fun n ps => ∃ s ∈ ops, callOf s = some (n, ps) ∧ predefined n = false) := by
+    rintro n ps n' ps' ⟨s, hs, hc, hp⟩ ⟨s', hs', hc', hp'⟩ hk
+    obtain ⟨hn, he⟩ := hwf s hs n ps hc hp
+    obtain ⟨hn', he'⟩ := hwf s' hs' n' ps' hc' hp'
+    exact customName_inj n n' ps ps' (isIdent_no_paren hn) (isIdent_no_paren hn') he he' hk
   obtain ⟨e0, o0, o1, h0, h1, rfl⟩ := flattenFrom_cons_inv (by simpa [flatten] using h)
   simp only [flattenStmt, Except.ok.injEq, Prod.mk.injEq] at h0
   obtain ⟨rfl, rfl⟩ := h0
